@@ -27,7 +27,9 @@ def cfg : Cfg :=
     wrapped := Gen.C03.wrapped
     memoized := Gen.C03.memoized
     feMemoized := Gen.C03.feMemoized
-    hasRollup := Gen.C03.hasRollup }
+    hasRollup := Gen.C03.hasRollup
+    goneGuard := Gen.C03.goneGuard
+    childrenPopSelf := Gen.C03.childrenPopSelf }
 
 /-- the public names of psutil.Process and the as_dict attribute names, as extracted -/
 def publicMethods : List String := Gen.C03.publicMethods
